@@ -316,6 +316,12 @@ pub fn run_history(cfg: &Cfg, hist: &[Op], judge_all: bool) -> Run {
         if events.iter().any(|e| matches!(e, Ev::Move { .. })) {
             witnesses.push("steal_moved_items");
         }
+        if let Some(Ev::Dropped { item, .. }) = events.iter().find(|e| matches!(e, Ev::Dropped { .. })) {
+            if judge {
+                viol = Some(Viol { property: "C03", clause: "no-item-lost".into(), class: "sequential".into(), detail: at(format!("item {item} was destroyed inside the queue without ever being returned")) });
+                break 'ops;
+            }
+        }
         if matches!(op, Op::Push { .. }) && events.iter().any(|e| matches!(e, Ev::Push { c, .. } if shim::with(|x| queue_of(cfg, &x.containers[*c])) == 0)) {
             witnesses.push("overflow_to_shared");
         }
@@ -342,6 +348,16 @@ pub fn run_history(cfg: &Cfg, hist: &[Op], judge_all: bool) -> Run {
         if q.shared_len() != true_shared {
             viol = Some(Viol { property: "C03", clause: "shared-len-equals-items-held".into(), class: "sequential".into(), detail: at(format!("shared queue reports len()={} but holds {true_shared} items", q.shared_len())) });
             break 'ops;
+        }
+        // ---- C05: while no more items are queued than the local capacity, the local queue keeps
+        // them (a push into a local queue holding fewer items than its capacity must not spill)
+        if let Op::Push { q: i, .. } = op {
+            let held = before.queues[&(1 + *i)].len();
+            let spilled = after.queues[&0].len() > before.queues[&0].len();
+            if held < cfg.cap && spilled {
+                viol = Some(Viol { property: "C05", clause: "no-spill-below-local-capacity".into(), class: if cfg.ordered { "ordered" } else { "plain" }.into(), detail: at(format!("local queue {i} held {held} item(s), its capacity is {}, yet the push moved work to the shared queue (which reorders it behind local work)", cfg.cap)) });
+                break 'ops;
+            }
         }
         // ---- C05: priority order within the queue the item was taken from, FIFO among equals
         if let (Some(x), true) = (&ret, matches!(op, Op::Pop { .. } | Op::GPop)) {
@@ -429,6 +445,14 @@ pub fn run_history(cfg: &Cfg, hist: &[Op], judge_all: bool) -> Run {
         return Run { key, viol, hang: true, obs, witnesses };
     }
     let dset: HashSet<u32> = drained.iter().copied().collect();
+    // conservation, independent of the shadow: everything ever pushed was returned or is drained now
+    let accounted: HashSet<u32> = returned.union(&dset).copied().collect();
+    if accounted != pushed {
+        let lost: Vec<&u32> = pushed.difference(&accounted).collect();
+        viol = Some(Viol { property: "C03", clause: "drain-returns-exactly-unpopped-items".into(), class: "sequential".into(), detail: format!("items {lost:?} were pushed but neither returned by a pop nor found when draining every queue") });
+        q.dispose(true);
+        return Run { key, viol, hang: false, obs, witnesses };
+    }
     if dset.len() != drained.len() || dset != expect {
         let lost: Vec<&u32> = expect.difference(&dset).collect();
         let extra: Vec<&u32> = dset.difference(&expect).collect();
